@@ -16,7 +16,8 @@ package main
 // description, so the correspondence ties exactly the code that the theorems of Props/C15Wmpt are about; where the
 // bytes are a canonical encoding the model's own CBOR decoder must reproduce the description as well.
 //
-// Oracle: no panic, every call returns within 2 s, accepted inputs re-serialize without panic.
+// Oracle: no panic, every call returns within 10 s (inputs are a few hundred bytes; the limit is generous so that a loaded
+// machine does not produce false alarms), accepted inputs re-serialize without panic.
 
 import (
 	"bytes"
@@ -105,7 +106,7 @@ func descTrieBytes(data []byte) (s string) {
 func timed(i int, x *CaseResult, what string, f func() string) string {
 	start := time.Now()
 	out := guard(f)
-	if d := time.Since(start); d > 2*time.Second {
+	if d := time.Since(start); d > 10*time.Second {
 		x.Fails = append(x.Fails, fmt.Sprintf("op %d: %s took %s", i, what, d))
 	}
 	if out == "panic" {
@@ -470,10 +471,11 @@ func genC15Wmpt(r *rand.Rand, tier string, idx int) []string {
 
 func init() {
 	register(&Suite{
-		Name: "c15wmpt",
-		Rule: "malformed-input stream for wmpt.DeserializeNode / Deserialize / VerifyBlockProof: real node, proof and export encodings of generated tries and their corruptions (every truncation, CBOR head inflation/deflation, indefinite and huge lengths, type-key changes, byte changes/insertions/deletions), valid CBOR with arbitrary fields (child entries of every length 0..81, 0..100 children, short value fields of every length, overflowing weights, several kinds in one map), null pairs at every position, elements of other kinds spliced into proofs and exports; non-trivial = every case",
-		Gen:  genC15Wmpt,
-		Run:  runC15Wmpt,
+		Name:        "c15wmpt",
+		Rule:        "malformed-input stream for wmpt.DeserializeNode / Deserialize / VerifyBlockProof: real node, proof and export encodings of generated tries and their corruptions (every truncation, CBOR head inflation/deflation, indefinite and huge lengths, type-key changes, byte changes/insertions/deletions), valid CBOR with arbitrary fields (child entries of every length 0..81, 0..100 children, short value fields of every length, overflowing weights, several kinds in one map), null pairs at every position, elements of other kinds spliced into proofs and exports; non-trivial = every case",
+		Gen:         genC15Wmpt,
+		Run:         runC15Wmpt,
+		CaseTimeout: 3 * time.Minute,
 		DefaultN: func(tier string) int {
 			if tier == "thorough" {
 				return 40000
